@@ -19,7 +19,7 @@ From Coq Require Import List NArith ZArith Bool Permutation.
 From SK Require Import lib.Tok lib.LGraph model.C03_Model proof.C03_Spec proof.C03_Proof proof.C03_Glue proof.C03_Backward
                        proof.C03_ExplicitH proof.C03_ExplicitShape proof.C03_ExplicitTotal proof.C03_Expand
                        proof.C03_Link proof.C03_Default proof.C03_Iso
-                       proof.C03_Skeleton.
+                       proof.C03_Skeleton proof.C03_StripCounts.
 Import ListNotations.
 Local Open Scope Z_scope.
 
@@ -212,6 +212,27 @@ Theorem C03_synrule_default_skeleton : forall (tpl rc : its) (l r : molg),
     gedges rc = filter (keepe removed) (gedges tpl).
 Proof. exact synrule_default_skeleton. Qed.
 Print Assumptions C03_synrule_default_skeleton.
+
+(** default mode, any template: the hydrogen counts.  Each side graph of the prepared rule (left = the pattern that is
+    matched, right) is the corresponding side of the template with the atoms of some list R removed: kept atoms in the
+    same order with the same element, aromaticity and charge, the bonds that avoid R, and the hcount of every
+    non-hydrogen kept atom = the number of bonds of that side that joined it to the removed atoms (every count starts
+    at 0 in this mode); the rule graph's two hydrogen counts are exactly the two sides' hcounts.  I.e. a rule atom's
+    hydrogen count on a side is the number of stripped explicit hydrogens bonded to it on that side.
+    (Which atoms are removed — the three-step decision procedure — and h_pairs: correspondence only.) *)
+Theorem C03_synrule_default_counts : forall (tpl rc : its) (l r : molg),
+  nodupb (node_ids tpl) = true -> synrule tpl true = Some (rc, l, r) ->
+  exists Rl Rr : list N,
+    (Forall2 (mrel (sum_cnt (gedges (fst (its_decompose (standardize_hydrogen tpl)))) Rl)) (gnodes l)
+             (filter (mkeepn Rl) (gnodes (init_m (fst (its_decompose (standardize_hydrogen tpl)))))) /\
+     gedges l = filter (mkeepe Rl) (gedges (fst (its_decompose (standardize_hydrogen tpl))))) /\
+    (Forall2 (mrel (sum_cnt (gedges (snd (its_decompose (standardize_hydrogen tpl)))) Rr)) (gnodes r)
+             (filter (mkeepn Rr) (gnodes (init_m (snd (its_decompose (standardize_hydrogen tpl)))))) /\
+     gedges r = filter (mkeepe Rr) (gedges (snd (its_decompose (standardize_hydrogen tpl))))) /\
+    (forall (k : N) (a : inode), In (k, a) (gnodes rc) ->
+       exists (la ra : mnode), label l k = Some la /\ label r k = Some ra /\ a_hc (iG a) = m_hc la /\ a_hc (iH a) = m_hc ra).
+Proof. exact synrule_default_counts. Qed.
+Print Assumptions C03_synrule_default_counts.
 
 (** ... and therefore, in default mode, the changed bonds of every proposed ITS (before _explicit_h re-materialises the
     migrating hydrogens) are exactly the images of the template's changed bonds that touch no stripped hydrogen *)
